@@ -66,12 +66,51 @@ def r07_1(run, model):
                 rec = any(True for _ in S.calls(arm["body"], "unify"))
                 run.ob("R07.1", f"mono::unify|{v} recurses into children", rec, site(t.fn.file, arm["sp"]), f"arm for {v} {'calls' if rec else 'does not call'} unify on its components",
                        witness=f"T inside {v} is never bound: the instance keeps a type parameter")
+                # every type-carrying binding of the arm's pattern is an operand of unify (directly, or as the iterator of a loop / zip
+                # whose elements are): a component that is only measured (`.len()`) is never unified
+                binds = set()
+                sub_alts = S.strip_refs(alt)["elems"] if S.strip_refs(alt)["k"] == "PTuple" else [alt]
+                for sa in sub_alts:
+                    b_, _rest = _bind(sa)
+                    for k_ in cv[v]:
+                        x_ = b_.get(k_)
+                        if isinstance(x_, str):
+                            binds.add(x_)
+                        elif isinstance(x_, tuple):
+                            binds |= set(x_)
+                fed = set()
+                for c in S.calls(arm["body"], "unify"):
+                    for a in c["args"]:
+                        fed |= S.idents(a)
+                for lp in S.find(arm["body"], "For"):
+                    if any(True for _ in S.calls(lp["body"], "unify")):
+                        fed |= S.idents(lp["iter"])
+                for c in S.walk(arm["body"]):
+                    if c["k"] == "MethodCall" and c["method"] in ("try_for_each", "for_each", "all", "map", "try_fold") and any(True for _ in S.calls(c, "unify")):
+                        fed |= S.idents(c["recv"])
+                unfed = sorted(b for b in binds if b not in fed and b not in ("_",))
+                run.ob("R07.1", f"mono::unify|{v}: every component is unified", not unfed, site(t.fn.file, arm["sp"]),
+                       f"components bound but never handed to unify: {unfed or 'none'}",
+                       witness="compose[A,B,C](f: (A) -> B, g: (B) -> C): A occurs only in a callback's parameter position, is never bound, and the instances for A=int32 and A=string collapse into one with a residual A")
     ptxt = S.norm_ws(run.facts.text(t.fn.file, t.match["arms"][0]["pat"]["sp"]))
     run.ob("R07.1", "mono::unify|template parameter binds first", "TParam" in ptxt, site(t.fn.file, t.match["arms"][0]["sp"]), f"first arm: {ptxt[:60]}")
 
 
-def r07_2(run, model, only_file=None):
-    """only_file: evaluate the audit for the traversals of one file only (clause shared into another property)"""
+# which traversals matter to which property (a clause is evaluated under a property only where its violation breaks that property):
+#   typer::unify::occurs  - infinite types: the typer diverges, nothing is emitted           -> C03, C04 only
+#   lift.rs predicates    - closure conversion, not generics                                   -> C08, C02, C03, C01 (not C07)
+#   go/** encoders        - Go text, not an IR                                                 -> not C03
+SCOPES = {
+    "C07": lambda t: t.fn.name != "occurs" and not t.fn.file.endswith("/lift.rs"),
+    "C01": lambda t: t.fn.name != "occurs",
+    "C02": lambda t: t.fn.name != "occurs" and "/typer/" not in t.fn.file,
+    "C03": lambda t: "/go/" not in t.fn.file,
+}
+
+
+def r07_2(run, model, only_file=None, scope=None):
+    """only_file: evaluate the audit for the traversals of one file only (clause shared into another property);
+    scope: property id selecting the traversals whose defects break that property (SCOPES)"""
     run.rule("R07.2", "every structural traversal of Ty handles every child-carrying type former (TTuple, TApp, TArray, TVec, TRef, TFunc - "
                       "computed from the enum) in an explicit arm that uses every child; none is swallowed by a catch-all arm")
     cv, trs = structural(model)
@@ -91,6 +130,8 @@ def r07_2(run, model, only_file=None):
         if t.fn.name == "unify" and t.kind == "pair":
             continue  # R07.1 / C03
         if only_file is not None and t.fn.file != only_file:
+            continue
+        if scope is not None and not SCOPES[scope](t):
             continue
         # dead code (no caller other than itself) decides nothing
         callers = 0
@@ -137,7 +178,10 @@ def r07_2(run, model, only_file=None):
     if only_file is not None:
         run.floor(f"structural Ty traversals in {only_file}", n, 1)
         return
-    run.floor("structural Ty traversals", n, 20)
+    if scope is not None and scope != "C07":
+        run.floor(f"structural Ty traversals in the scope of {scope}", n, 8)
+        return
+    run.floor("structural Ty traversals", n, 18)
     for rel, name in ANCHOR_TRAVERSALS:
         ok = (rel, name) in names
         run.ob("R07.2", f"{rel}::{name}|is a structural traversal", ok, None,
@@ -165,6 +209,14 @@ def r07_3(run, model):
     t2 = S.norm_ws(run.facts.text(MONO, g.body["sp"]))
     ok2 = 0 <= t2.find("self.map.get(&key)") < t2.find("self.map.insert(key") and "return" in t2[:t2.find("self.map.insert(key")]
     run.ob("R07.3", "TypeMono::ensure_instance|lookup before insert", ok2, site(MONO, g.node["sp"]), "type instances are looked up by (name, args) before a new definition is created")
+    sn = model.find_fns("spec_name_for", MONO)
+    if sn:
+        printers = sorted({S.callee_name(c) for c in S.calls(sn[0].body) if re.search(r"(^|_)ty(_|$)|encode|compact|type_name|to_pretty", S.callee_name(c) or "")} |
+                          {i for i in S.idents(sn[0].body) if i in ("encode_ty", "go_type_name_for", "go_type_name", "ty_compact")})
+        ok = bool(printers) and set(printers) <= {"ty_compact"}
+        run.ob("R07.3", "spec_name_for|type arguments rendered by the injective printer", ok, site(MONO, sn[0].node["sp"]),
+               f"type printers used for instance names: {printers or 'none found'} (ty_compact keeps brackets and arities; encode_ty / go_type_name_for drop tuple arity - C19 R19.4)",
+               witness="first_of at ((int32,int32),int32,int32) and at ((int32,int32,int32),int32): two instances generated under one name")
     for name, impl in (("new", "SubstKey"), ("spec_name_for", None)):
         fs = model.find_fns(name, MONO, impl=impl)
         if not fs:
@@ -308,7 +360,7 @@ def r07_6(run, model):
 
 def run(run, model):
     run.try_rule(r07_1, model)
-    run.try_rule(r07_2, model)
+    run.try_rule(r07_2, model, None, "C07")
     run.try_rule(r07_3, model)
     run.try_rule(r07_4, model)
     run.try_rule(r07_5, model)
